@@ -267,7 +267,8 @@ def judge(prog, run, initial=None, check_each=True):
         trace.append(sp.text() + (f" /{g}" if g else ""))
         try:
             if g is not None:
-                ref.apply(_Sub(g, sp.q))
+                if g != "I*":                 # "I*": the carrier Identity of a wrapper-level noise object
+                    ref.apply(_Sub(g, sp.q))
             elif sp.kind in ("MZ", "MR", "cCNOT", "cCZ"):
                 outs = ev["outcomes"]
                 if len(outs) < 1:
